@@ -749,6 +749,11 @@ func intrinsics() map[string]intrinsic {
 	m[dp+"mapassign_faststr"] = func(st *State, fn *ssa.Function, args []Value) Value {
 		mo := st.mapObj(args[1], true)
 		slot := st.alloc(int(st.tc.of(mo.vtyp).size), "mapslot")
+		// like the runtime: for a key that is already present the returned slot holds the
+		// current value (code that decodes into the slot in place merges with it)
+		if cur, found := st.mapLookup(args[1], args[2]); found.IsTrue() && cur != nil {
+			st.storeT(slot, mo.vtyp, cur)
+		}
 		st.mapUpdate(args[1], args[2], slotRef{slot}, nil)
 		return slot
 	}
